@@ -16,7 +16,8 @@ B(str) == str
 F1 == <<c_f, D1>>  F2 == <<c_f, D2>>  F3 == <<c_f, D3>>
 FileList == << [name |-> F1, recs |-> << <<c_a, SP, D1>>, <<c_b>>, <<c_c, SP, D3, SP, c_y>> >>],
                [name |-> F2, recs |-> << <<c_d, SP, c_d>>, <<c_a>> >>],
-               [name |-> F3, recs |-> <<>>] >>
+               [name |-> F3, recs |-> <<>>],
+               [name |-> <<D7>>, recs |-> << <<c_n, SP, D7>>, <<c_m>> >>] >>     \* a file whose name is a number
 FilesFn == [nm \in {FileList[j].name : j \in 1..Len(FileList)} |->
               FileList[CHOOSE j \in 1..Len(FileList) : FileList[j].name = nm].recs]
 Stdin2 == << <<c_s, D1>>, <<c_b, SP, c_s>> >>
@@ -31,7 +32,8 @@ Tr(tag) == SPrint(<<S(tag), V("NR"), V("FNR"), FName, Fld(N(0)), V("NF"), V("v")
 
 \* abstract commands a rule body is made of
 Cmds == {"none", "next", "nextfile", "exit3", "exit", "getline", "getline-v", "getline-f2", "getline-v-f2", "getline-fld",
-         "getline-fld-f2", "getline-elem", "call-next", "call-nextfile", "call-exit", "call-getline", "getline-loop-f2", "close-f2"}
+         "getline-fld-f2", "getline-elem", "call-next", "call-nextfile", "call-exit", "call-getline", "getline-loop-f2", "close-f2",
+         "getline-v-dash", "getline-dash"}
 CmdStmts(cm) ==
   CASE cm = "none" -> <<>>
     [] cm = "next" -> <<SNext>>
@@ -51,6 +53,9 @@ CmdStmts(cm) ==
     [] cm = "call-getline" -> <<SPrint(<<S(<<c_g>>), Call("fg", <<>>)>>), Tr(<<c_h>>)>>
     [] cm = "getline-loop-f2" -> <<SWhile(Bin(">", GetF(V("w"), S(F2)), N(0)), <<SExpr(Inc("++", FALSE, V("q")))>>), SPrint(<<S(<<c_q>>), V("q"), V("w")>>), Tr(<<c_h>>)>>
     [] cm = "close-f2" -> <<SPrint(<<S(<<c_g>>), GetF(V("w"), S(F2)), V("w"), CloseF(S(F2)), GetF(V("w"), S(F2)), V("w")>>), Tr(<<c_h>>)>>
+    \* standard input read through getline < "-" while the main input comes from file operands
+    [] cm = "getline-v-dash" -> <<SPrint(<<S(<<c_g>>), GetF(V("w"), S(<<MINUS>>)), V("w")>>), Tr(<<c_h>>)>>
+    [] cm = "getline-dash" -> <<SPrint(<<S(<<c_g>>), GetF(NoE, S(<<MINUS>>))>>), Tr(<<c_h>>)>>
 Helpers == << Func("fn", <<>>, <<T1(<<c_n>>), SNext>>), Func("fnf", <<>>, <<T1(<<c_n>>), SNextfile>>),
               Func("fx", <<>>, <<T1(<<c_x>>), SExit(N(2)), T1(<<c_y>>)>>),
               Func("fg", <<Param("p")>>, <<SExpr(Asg(V("p"), GetL(V("w")))), SRet(Cc(V("p"), V("w")))>>) >>
@@ -93,6 +98,9 @@ BeginCases ==
        <<"argc-cut", <<SExpr(Asg(V("ARGC"), N(2))), Tr(<<c_b>>)>> >>,
        <<"argv-blank", <<SExpr(Asg(Idx("ARGV", N(1)), S(<<>>))), Tr(<<c_b>>)>> >>,
        <<"argv-delete", <<SDel("ARGV", N(1)), Tr(<<c_b>>)>> >>,
+       \* an operand is the STRING value of the ARGV element, also when a number was assigned
+       <<"argv-number", <<SExpr(Asg(Idx("ARGV", N(1)), N(7))), Tr(<<c_b>>)>> >>,
+       <<"argv-number-appended", <<SExpr(Asg(Idx("ARGV", Inc("++", FALSE, V("ARGC"))), Bin("+", N(3), N(4)))), Tr(<<c_b>>)>> >>,
        <<"exit-in-begin", <<Tr(<<c_b>>), SExit(N(4)), T1(<<c_x>>)>> >>,
        <<"exit-in-begin-via-function", <<Tr(<<c_b>>), SExpr(Call("fx", <<>>)), T1(<<c_x>>)>> >>,
        <<"getline-all-then-main", <<SWhile(Bin(">", GetL(V("w")), N(0)), <<SExpr(Inc("++", FALSE, V("q")))>>), SPrint(<<V("q"), V("NR")>>)>> >> }}
@@ -110,7 +118,20 @@ EndCases ==
        <<"exit-in-rule-end-new-status", <<Rule(Bin("==", V("NR"), N(1)), <<SExit(N(3))>>)>>, <<SExit(N(6))>> >>,
        <<"nr-assigned", <<Rule(Bin("==", V("FNR"), N(2)), <<SExpr(Asg(V("NR"), N(10))), Tr(<<D1>>)>>), Rule(NoE, <<Tr(<<D2>>)>>)>>, <<Tr(<<c_e>>)>> >> }}
 
-Cases(fm) == CASE fm = "body" -> BodyCases [] fm = "range" -> RangeCases [] fm = "begin" -> BeginCases [] fm = "end" -> EndCases
+Helpers2 == << Func("skip", <<>>, <<SNext>>), Func("outer", <<>>, <<SExpr(Call("skip", <<>>))>>),
+               Func("fg2", <<Param("p")>>, <<SExpr(Asg(V("p"), GetL(V("w")))), SRet(V("p"))>>),
+               Func("fr", <<Param("p")>>, <<SWhile(N(1), <<SIf(Bin(">", Inc("++", TRUE, V("p")), N(4)), <<SRet(V("p"))>>, <<>>)>>)>>) >>
+\* long inputs: something that must not accumulate per record (2100 records; the limit on nested calls is 1000)
+LongStdin(m) == [j \in 1..m |-> IF j % 7 = 0 THEN <<c_b, SP, c_x>> ELSE <<c_a>>]
+LongCases ==
+  {[fam |-> "long", mech |-> "long/" \o nm, env |-> [stdin |-> LongStdin(2100), files |-> FileList, args |-> <<>>],
+    prog |-> Prog(<<>>, rl, <<SPrint(<<V("NR"), V("n"), V("k")>>)>>, Helpers2)]
+   : <<nm, rl>> \in {
+       <<"next-in-function", <<Rule(Bin("==", Bin("%", V("NR"), N(2)), N(0)), <<SExpr(Call("skip", <<>>))>>), Rule(NoE, <<SExpr(Inc("++", FALSE, V("n")))>>)>> >>,
+       <<"next-in-nested-function", <<Rule(Mat(Fld(N(0)), Lit(c_a)), <<SExpr(Call("outer", <<>>))>>), Rule(NoE, <<SExpr(Inc("++", FALSE, V("n")))>>)>> >>,
+       <<"getline-in-function", <<Rule(NoE, <<SExpr(Aug("+", V("k"), Call("fg2", <<>>))), SExpr(Inc("++", FALSE, V("n")))>>)>> >>,
+       <<"return-in-loop-in-function", <<Rule(NoE, <<SExpr(Aug("+", V("k"), Call("fr", <<N(3)>>))), SExpr(Inc("++", FALSE, V("n")))>>)>> >> }}
+Cases(fm) == CASE fm = "long" -> LongCases [] fm = "body" -> BodyCases [] fm = "range" -> RangeCases [] fm = "begin" -> BeginCases [] fm = "end" -> EndCases
 AllCases == UNION {Cases(fm) : fm \in Families}
 
 VARIABLES cs, done
